@@ -177,6 +177,8 @@ class BufIter(Unit):
         ex.oblige(st, f'line {node.lineno}: _start() is called once', z3.Not(st.ghost['started']))
         st.ghost['started'] = z3.BoolVal(True)
         self.me.set(st, '_tasks', self.q)
+        # the worker thread handle (Buffer._start sets it): it may end at any moment after its terminal put -- is_alive() is volatile
+        self.me.set(st, '_worker', Rec(ex, 'worker', immutable=True, methods={'is_alive': Fn(lambda e, s, a, k, n: [('ok', s, fresh('worker_alive', z3.BoolSort()))])}))
         return [('ok', st, NONE)]
 
     def finalize_contract(self, ex, st, args, kwargs, node):
